@@ -263,10 +263,23 @@ func exec(t []string) string {
 		return "ok " + lib.Hex(buf.Bytes())
 	case t[0] == "srv.msg" && len(t) == 5:
 		return srvMsg(t[1], atoi(t[2]), atoi(t[3]), atoi(t[4]))
-	case t[0] == "f.new" && len(t) == 1:
-		return fNew()
-	case t[0] == "f.new" && len(t) == 2 && t[1] == "quic":
-		return fNewQUIC()
+	case t[0] == "f.new" && len(t) <= 3:
+		// f.new [quic] [host=<dotted loopback address the scripted peer listens on>]
+		host, overQUIC := "127.0.0.1", false
+		for _, x := range t[1:] {
+			switch {
+			case x == "quic":
+				overQUIC = true
+			case strings.HasPrefix(x, "host="):
+				host = x[5:]
+			default:
+				panic("bad-op")
+			}
+		}
+		if overQUIC {
+			return fNewQUIC(host)
+		}
+		return fNew(host)
 	case t[0] == "f.fetch":
 		return fFetch(t[1:])
 	case t[0] == "f.store" && len(t) == 2:
